@@ -200,11 +200,33 @@ def read_edit_readd():
                     yield {"doc": d, "ops": [g, ["del", 0, (fi + 1) % 3, 0], ["set", 0, 0, "m", 1]], "view": True, "blind": True}
 
 
+def same_assignment_twice():
+    """The same field set to the same value in two paragraphs (one of them with comment lines,
+    the other without), then set again / deleted / replaced in one of them: what was built for
+    one paragraph must never be handed to another."""
+    for c0, c1 in (("# zero\n", ""), ("", "# one\n"), ("# zero\n", "# one\n")):
+        paras = [[{"n": "Alpha", "c": c0, "b": " v0\n"}, {"n": "Beta", "c": "", "b": " b\n"}],
+                 [{"n": "Alpha", "c": c1, "b": " v1\n"}, {"n": "Gamma", "c": "", "b": " g\n"}]]
+        for fin in (True, False):
+            d = {"lead": "", "paras": paras, "seps": ["\n"], "tail": "", "final_nl": fin}
+            for val in ("n", "n\n c2", "", "x: y"):
+                for route in (None, "view", "simple", "raw"):
+                    s0 = ["set", 0, 0, val, 0, route]
+                    s1 = ["set", 1, 0, val, 2, route]
+                    for tail in ([], [["set", 0, 0, "m", 0]], [["set", 1, 0, val, 0]], [["del", 0, 0, 0]],
+                                 [["add", 0, "New", val], ["add", 1, "New", val]], [["set", 0, 0, val, 1, route]]):
+                        for blind in (False, True):
+                            yield {"doc": d, "ops": [s0, s1] + tail, "view": False, "blind": blind}
+                            yield {"doc": d, "ops": [s1, s0] + tail, "view": False, "blind": blind}
+
+
 def sources(tier):
     if tier == "quick":
         return [Enum("small-docs", small_docs, "1-2 paragraphs x 4 bodies^2 x 8 ops (+ second op)"),
                 Enum("read-edit-readd", read_edit_readd, "blind histories: read (4 forms x 3 key forms) then delete/replace/clear then add, 3 fields x 2 endings"),
+                Enum("same-assignment-twice", same_assignment_twice, "the same field set to the same value in two paragraphs (4 values x 4 routes) then six follow-ups, with and without comments"),
                 Hyp("doc-histories", case, 400, shards=8)]
     return [Enum("small-docs", small_docs, "1-2 paragraphs x 4 bodies^2 x 8 ops (+ second op)"),
             Enum("read-edit-readd", read_edit_readd, "blind histories: read (4 forms x 3 key forms) then delete/replace/clear then add, 3 fields x 2 endings"),
+            Enum("same-assignment-twice", same_assignment_twice, "the same field set to the same value in two paragraphs (4 values x 4 routes) then six follow-ups, with and without comments"),
             Hyp("doc-histories", case, 10000, shards=16)]
